@@ -130,6 +130,15 @@ func buildC08Inband(tier string) sim.Scenario {
 				}
 				ts += 3600
 			}
+			if tp.OneIn(3) { // header-only NAL unit closing the GOP (end of sequence), in a packet of its own
+				w.Probe("c08ib.header-only-unit")
+				if cdc == oracle.H265 {
+					add([]byte{36 << 1, 1}, true, true, false)
+				} else {
+					add([]byte{10}, true, true, false)
+				}
+				ts += 3600
+			}
 		}
 		nView := 1 + tp.Choose(2)
 		joinAt := make([]int, nView)
@@ -192,10 +201,10 @@ func buildC08Inband(tier string) sim.Scenario {
 		for _, ps := range psets {
 			isPset[string(ps)] = true
 		}
-		nalIdx, auIdx := map[string]int{}, map[string]int{}
+		nalIdx, auIdx := map[string][]int{}, map[string]int{}
 		for i, e := range pk {
 			if e.nal != nil {
-				nalIdx[string(e.nal)] = i
+				nalIdx[string(e.nal)] = append(nalIdx[string(e.nal)], i)
 			}
 			if e.au != nil {
 				auIdx[string(e.au)] = i
@@ -271,7 +280,15 @@ func buildC08Inband(tier string) sim.Scenario {
 						if isPset[string(n)] { // a parameter set sent in-band may also be passed on as a unit of its own
 							continue
 						}
-						i, ok := nalIdx[string(n)]
+						// header-only units (end of sequence) are byte-identical: the next one not yet seen is meant
+						idxs, ok := nalIdx[string(n)]
+						i := -1
+						for _, x := range idxs {
+							i = x
+							if x > lastV {
+								break
+							}
+						}
 						if !ok {
 							w.Fail("C08/unit-mismatch", "viewer %d: video tag %d carries a %d-byte unit that is no sent slice", v, k, len(n))
 							return
